@@ -59,7 +59,7 @@ func TestCheck(t *testing.T) {
 		}
 		// Byzantine member on the wire (consworld/adversary.go): a member that is handed the adversary's
 		// value decided something no leader proposed and no quorum of distinct members committed.
-		advWorlds, advDuties := 5, 5
+		advWorlds, advDuties := 5, 6
 		if r.Thorough() {
 			advWorlds, advDuties = 40, 10
 		}
@@ -71,10 +71,13 @@ func TestCheck(t *testing.T) {
 				continue
 			}
 			for d := 0; d < advDuties; d++ {
-				play := consworld.AdvPlays[(k*advDuties+d+2)%len(consworld.AdvPlays)]
+				play := consworld.AdvPlays[(k*advDuties+d+2)%5]
+				if d == advDuties-1 || d == advDuties/2 {
+					play = consworld.AdvPlays[5] // replay of an earlier duty's genuine COMMITs (falls back while there is no earlier duty of the type)
+				}
 				res := aw.RunAdvDuty(b, rngA, play, fmt.Sprintf("adv%d-d%d", k, d))
 				r.Count("adversary_duties", 1)
-				r.Count("adversary_duties/"+play, 1)
+				r.Count("adversary_duties/"+res.Play, 1)
 				if res.OthersGotA {
 					r.Count("adversary_duties_in_which_the_other_members_decided_with_the_adversarys_genuine_votes", 1)
 				}
